@@ -23,6 +23,7 @@ func OracleC15(r *SeqRun) []explore.Violation {
 		return v
 	}
 	data := map[byte][]byte{} // request -> value frame it carries
+	clean := map[byte]bool{}  // key -> completely free since the last reply
 	var vs []explore.Violation
 	add := func(sig, msg string) { vs = append(vs, explore.Violation{Sig: "C15:" + sig, Msg: msg}) }
 	steps := append(append([]SeqStep{}, r.Ramp...), r.Steps...)
@@ -50,8 +51,9 @@ func OracleC15(r *SeqRun) []explore.Violation {
 				}
 				pending = append(pending, more...)
 				if m.Keys[kb].DepthSum() == 0 {
-					val[kb] = refmodel.Val{Unknown: true}
+					val[kb] = freeVal(m.Keys[kb])
 				}
+				clean[kb] = freedClean(m.Keys[kb])
 				continue
 			}
 			if e.Result == refmodel.TIMEOUT && isQueued(m, e) {
@@ -60,6 +62,7 @@ func OracleC15(r *SeqRun) []explore.Violation {
 					return vs
 				}
 				pending = append(pending, more...)
+				clean[kb] = freedClean(m.Keys[kb])
 				continue
 			}
 			if len(pending) == 0 {
@@ -71,6 +74,9 @@ func OracleC15(r *SeqRun) []explore.Violation {
 				return vs
 			}
 			before := get(kb)
+			if clean[kb] && e.Cmd == 1 && e.Result == 0 {
+				before = refmodel.NoVal() // first grant on a key that was completely free
+			}
 			got, err := refmodel.DecodeFrame(e.Data)
 			if before.Unknown {
 				got, err = refmodel.Val{Unknown: true}, nil
@@ -90,8 +96,9 @@ func OracleC15(r *SeqRun) []explore.Violation {
 			}
 			// the value is only defined while the key is held
 			if k := m.Keys[kb]; k != nil && k.DepthSum() == 0 {
-				val[kb] = refmodel.Val{Unknown: true}
+				val[kb] = freeVal(k)
 			}
+			clean[kb] = freedClean(m.Keys[kb])
 		}
 		if st.Snap != nil {
 			for kb, k := range m.Keys {
@@ -122,6 +129,13 @@ func OracleC15(r *SeqRun) []explore.Violation {
 	}
 	return vs
 }
+
+// freeVal: the value of a key nobody holds is not defined (refusals answered meanwhile may carry anything);
+// freedClean says whether the next grant must start from no value: nobody holds and nobody waits. With requests
+// still queued the statement leaves open whether the next holder inherits the value.
+func freeVal(k *refmodel.Key) refmodel.Val { return refmodel.Val{Unknown: true} }
+
+func freedClean(k *refmodel.Key) bool { return k != nil && k.DepthSum() == 0 && len(k.Waits) == 0 }
 
 func vd(d *protocol.LockCommandData) []byte { return d.Data }
 
@@ -187,10 +201,38 @@ func c15Specs(quick bool) []*SeqSpec {
 }
 
 func init() {
-	seqCheck("C15", "model_checking", func(q bool) *SeqPlan {
-		return &SeqPlan{Specs: c15Specs(q), Oracles: []SeqOracle{OracleC15}}
-	}, "explicit-state breadth-first search over histories of value operations (SET, UNSET, INCR incl. negative and overflow, APPEND, SHIFT 0/1/beyond length, PUSH, POP 0/1/beyond length, PIPELINE) carried on lock, re-entrant re-lock, update, unlock and refused requests by several LockIds of one key; every reply's value and the key's value after every step are compared with a sequential interpreter (RefValue) written from the operations' meaning, not from ProcessLockData",
-		[]string{"byte-level register semantics: INCR adds to the little-endian integer in the first 8 value bytes (the statement does not promise decimal strings)",
-			"operations applied to a value of another kind (e.g. APPEND on an array) are left open by the statement: the oracle treats the result as unknown until the next SET/UNSET",
-			"the value is only defined while the key is held; Redis-style text commands are checked at the wire level in the same check's text part when the full-node harness is available"})
+	Registry["C15"] = func(c *Ctx) int {
+		p := &SeqPlan{Specs: c15Specs(c.Quick()), Oracles: []SeqOracle{OracleC15}}
+		ep := &EnumPlan{Name: "redis-style-text", Cases: c15TextCases, Eval: evalC15Text}
+		if c.Worker >= 0 {
+			if c.Scen == ep.Name {
+				return ep.Worker(c)
+			}
+			return p.Worker(c)
+		}
+		sum := p.Master(c)
+		if sum.EngineErr != "" {
+			return EngineError("%s", sum.EngineErr)
+		}
+		es := &EnumSummary{}
+		ep.Master(c, es)
+		if es.EngineErr != "" {
+			return EngineError("%s", es.EngineErr)
+		}
+		c.ReportKnown(es.KnownHits)
+		cov := sum.Coverage(p, "explicit-state breadth-first search over histories of value operations (SET, UNSET, INCR incl. negative and overflow, APPEND, SHIFT 0/1/beyond length, PUSH, POP 0/1/beyond length, PIPELINE) carried on lock, re-entrant re-lock, update, unlock and refused requests by several LockIds of one key; every reply's value and the key's value after every step are compared with a sequential interpreter (RefValue) written from the operations' meaning, not from ProcessLockData. Second part: every sequence up to the depth of the Redis-style text commands (SET [EX], GET, DEL, SETNX, GETSET, APPEND, EXISTS, STRLEN, INCR/DECR(BY), EXPIRE, PERSIST, clock advances) over 3 keys on a full node through the text protocol, compared with a plain key-value store with expiry")
+		cov["text_kv_sequences"] = es.Evaluations
+		cov["text_kv_distinct_reply_traces"] = len(es.DistinctNT)
+		cov["transitions"] = cov["transitions"].(int) + es.Evaluations
+		cov["traces_validated_against_impl"] = cov["transitions"]
+		cov["samples"] = append(cov["samples"].([]interface{}), es.Samples...)
+		viol := sum.Violations + es.Violations
+		c.WriteEvidence("model_checking", cov, []string{"byte-level register semantics: a number and a byte string are different kinds of value; arithmetic on a string / string operations on a number leave the key unknown until the next SET or DEL (the statement does not promise decimal-string arithmetic)",
+			"operations applied to a value of another kind (e.g. APPEND on an array) are left open by the statement", "the value is only defined while the key is held; inside [deadline, deadline+2s] of an EXPIRE both answers are accepted"}, viol)
+		fmt.Printf("C15 %s: %d states, %d transitions, %d text sequences, %d violations\n", c.Tier, sum.States, sum.Trans, es.Evaluations, viol)
+		if viol > 0 {
+			return 1
+		}
+		return 0
+	}
 }
